@@ -49,6 +49,7 @@ def tyEq (a b : Ty) : Bool :=
        | .pattern rs' => rs.length == rs'.length && subsetStr rs rs' && subsetStr rs' rs
        | _ => false)
   | .regexp s => (match b with | .regexp s' => s == s' | _ => false)
+  | .runtime r n p => (match b with | .runtime r' n' p' => r == r' && n == n' && p == p' | _ => false)
   | .coll r => (match b with | .coll r' => r == r' | _ => false)
   | .array e r => (match b with | .array e' r' => r == r' && tyEq e e' | _ => false)
   | .hash k v r => (match b with | .hash k' v' r' => r == r' && tyEq k k' && tyEq v v' | _ => false)
@@ -120,6 +121,7 @@ def keyEq : Ty → Ty → Bool
   | .enum vs ci, .enum vs' ci' => vs == vs' && ci == ci'
   | .pattern rs, .pattern rs' => rs == rs'
   | .regexp s, .regexp s' => s == s'
+  | .runtime r n p, .runtime r' n' p' => r == r' && n == n' && p == p'
   | .coll r, .coll r' => r == r'
   | .array e r, .array e' r' => keyEq e e' && r == r'
   | .hash k v r, .hash k' v' r' => keyEq k k' && keyEq v v' && r == r'
@@ -173,6 +175,7 @@ def generalize : Ty → Ty
   | .str | .strSz _ | .strVal _ => .str
   | .pattern _ => .pattern []
   | .regexp _ => .regexp ""
+  | .runtime _ _ _ => .runtime "" "" none
   | .tspan _ => .tspan Rng.all
   | .tstamp _ => .tstamp tstampAll
   | .object _ => .object none
@@ -211,6 +214,7 @@ def genericType : Ty → Ty
   | .struct ms => .struct (genericM ms)
   | .tuple ts g => .tuple (generalizeL ts) g
   | .variant ts => mkVariant (uniqueTy (generalizeL ts))
+  | .runtime _ _ _ => .runtime "" "" none
   | t => t
 def generalizeL : List Ty → List Ty
   | [] => []
@@ -285,6 +289,10 @@ def commonF : Nat → Ty → Ty → Ty
       | .iterator x =>
           (match b with
            | .iterator y => .iterator (commonF n x y)
+           | _ => commonTail cfg sfh a b)
+      | .runtime rt _ _ =>
+          (match b with
+           | .runtime rt' _ _ => if rt == rt' then .runtime rt "" none else .runtime "" "" none
            | _ => commonTail cfg sfh a b)
       | .notUndef x =>
           (match b with
